@@ -1,6 +1,7 @@
 package rest
 
 import (
+	"errors"
 	"net/http"
 	"sync"
 	"time"
@@ -61,12 +62,10 @@ func (ml *msgListenerV2) Receive(msg event.MessageMetadata) error {
 	}
 
 	// Enqueue for websocket.
-	ml.c <- &model.JSONMonitorEventV2{
+	return ml.enqueue(&model.JSONMonitorEventV2{
 		Variant: "message-stored",
 		Header:  metadataToHeader(&msg),
-	}
-
-	return nil
+	})
 }
 
 // Delete handles a deleted message.
@@ -77,15 +76,28 @@ func (ml *msgListenerV2) Delete(mailbox string, id string) error {
 	}
 
 	// Enqueue for websocket.
-	ml.c <- &model.JSONMonitorEventV2{
+	return ml.enqueue(&model.JSONMonitorEventV2{
 		Variant: "message-deleted",
 		Identifier: &model.JSONMessageIDV2{
 			Mailbox: mailbox,
 			ID:      id,
 		},
-	}
+	})
+}
 
-	return nil
+// errListenerQueueFull is returned to the hub by a listener whose client has fallen too far behind.
+var errListenerQueueFull = errors.New("websocket listener queue full")
+
+// enqueue hands an event to the websocket writer without ever waiting for it.
+func (ml *msgListenerV2) enqueue(ev *model.JSONMonitorEventV2) error {
+	select {
+	case ml.c <- ev:
+		return nil
+	default:
+		// The client is not keeping up: give up on it rather than stall the hub for everyone.
+		go ml.Close()
+		return errListenerQueueFull
+	}
 }
 
 // WSReader makes sure the websocket client is still connected, discards any messages from client
